@@ -26,7 +26,10 @@ Inductive fpath :=
 | FIngest (d : N) (c : nat)     (* ingest/<d>_<random> *)
 | FLayoutTmp (c : nat).         (* oci-layout.tmp<random>: temporary sibling during initialisation *)
 
-Inductive dpath := DBlobs | DAlg | DIngest.
+(* blob names are pairs (algorithm, digest) encoded as 1000 * algorithm + n:
+   algorithm 0 = sha256, 1 = sha512; blobs/<algorithm>/ is created by the first push into it *)
+Definition alg_of (d : N) : N := d / 1000.
+Inductive dpath := DBlobs | DAlg (a : N) | DIngest.
 
 Definition fpath_eqb (p q : fpath) : bool :=
   match p, q with
@@ -41,7 +44,8 @@ Definition fpath_eqb (p q : fpath) : bool :=
 
 Definition dpath_eqb (p q : dpath) : bool :=
   match p, q with
-  | DBlobs, DBlobs | DAlg, DAlg | DIngest, DIngest => true
+  | DBlobs, DBlobs | DIngest, DIngest => true
+  | DAlg a, DAlg b => N.eqb a b
   | _, _ => false
   end.
 
@@ -158,8 +162,9 @@ Definition index_steps (c : nat) (tags : list (N * N)) (digs : list N) : list ms
   else [Create (FIndexTmp c); Write (FIndexTmp c) (AIndex l); Close (FIndexTmp c);
         Rename (FIndexTmp c) FIndex].
 
-Definition mkdirs (fs : FS) : list mstep :=
-  (if dirs fs DAlg then [] else [Mkdir DAlg]) ++ (if dirs fs DIngest then [] else [Mkdir DIngest]).
+Definition mkdirs (fs : FS) (d : N) : list mstep :=
+  (if dirs fs (DAlg (alg_of d)) then [] else [Mkdir (DAlg (alg_of d))]) ++
+  (if dirs fs DIngest then [] else [Mkdir DIngest]).
 
 (* memory after the operation completed (the tag resolver) *)
 Definition op_mem (s : st) (o : op) : list (N * N) * list N :=
@@ -191,7 +196,7 @@ Definition op_steps (s : st) (o : op) : list mstep :=
       if exists_file (sfs s) (FBlob d) then []
       else
         let t := FIngest d c in
-        mkdirs (sfs s) ++ [Create t] ++ map (fun x => Write t (AChunk x)) cont ++
+        mkdirs (sfs s) d ++ [Create t] ++ map (fun x => Write t (AChunk x)) cont ++
         (if H cont =? d
          then [Chmod t; Close t; Rename t (FBlob d)] ++ (if man then index_steps c tags' digs' else [])
          else [Close t; Unlink t])
